@@ -46,13 +46,13 @@ PROPS = {
     },
     "C08": {
         "pkg": "handlers", "level": "exploration",
-        "quick": {"stages": [st("^TestMerge(C08C09|Regress)", 6000), st("^TestMergeFreeRunning", 1500), st("^TestMergeScale", 60, shards=2)]},
-        "thorough": {"stages": [st("^TestMerge(C08C09|Regress)", 200000, shards=10, timeout=3000), st("^TestMergeFreeRunning", 40000, shards=4, timeout=3000), st("^TestMerge(C08C09|Regress|FreeRunning)", 10000, shards=2, race=True, timeout=3000), st("^TestMergeScale", 1500, shards=4, timeout=3000)]},
+        "quick": {"stages": [st("^TestMerge(C08C09|Regress)", 6000), st("^TestMergeFreeRunning", 1500), st("^TestMergeScale", 60, shards=2), st("^TestMergeReissueAfterEOSE", 150, shards=2)]},
+        "thorough": {"stages": [st("^TestMerge(C08C09|Regress)", 200000, shards=10, timeout=3000), st("^TestMergeFreeRunning", 40000, shards=4, timeout=3000), st("^TestMerge(C08C09|Regress|FreeRunning)", 10000, shards=2, race=True, timeout=3000), st("^TestMergeScale", 1500, shards=4, timeout=3000), st("^TestMergeReissueAfterEOSE", 6000, shards=4, timeout=3000)]},
     },
     "C09": {
         "pkg": "handlers", "level": "exploration",
-        "quick": {"stages": [st("^TestMerge(C08C09|Regress)", 6000), st("^TestMergeFreeRunning", 1500), st("^TestMergeScale", 60, shards=2)]},
-        "thorough": {"stages": [st("^TestMerge(C08C09|Regress)", 200000, shards=10, timeout=3000), st("^TestMergeFreeRunning", 40000, shards=4, timeout=3000), st("^TestMerge(C08C09|Regress|FreeRunning)", 10000, shards=2, race=True, timeout=3000), st("^TestMergeScale", 1500, shards=4, timeout=3000)]},
+        "quick": {"stages": [st("^TestMerge(C08C09|Regress)", 6000), st("^TestMergeFreeRunning", 1500), st("^TestMergeScale", 60, shards=2), st("^TestMergeConcurrentSessions", 60, shards=2), st("^TestMergeConcurrentSessions", 12, race=True)]},
+        "thorough": {"stages": [st("^TestMerge(C08C09|Regress)", 200000, shards=10, timeout=3000), st("^TestMergeFreeRunning", 40000, shards=4, timeout=3000), st("^TestMerge(C08C09|Regress|FreeRunning)", 10000, shards=2, race=True, timeout=3000), st("^TestMergeScale", 1500, shards=4, timeout=3000), st("^TestMergeConcurrentSessions", 3000, shards=4, timeout=3000), st("^TestMergeConcurrentSessions", 300, shards=2, race=True, timeout=3000)]},
     },
     "C06": {
         "pkg": "sqlite", "level": "exploration",
@@ -86,8 +86,8 @@ PROPS = {
     },
     "C07": {
         "pkg": "handlers", "level": "exploration",
-        "quick": {"stages": [st("^TestC07Sequential", 600), st("^TestC07Concurrent", 600), st("^TestC07Backpressure", 150), st("^TestC07Churn", 12), st("^TestC07BacklogSiblingClose", 60, shards=3), st("^TestC07Scale", 12, shards=4)]},
-        "thorough": {"stages": [st("^TestC07Sequential", 10000, shards=6, timeout=3000), st("^TestC07Concurrent", 12000, shards=5, timeout=3000), st("^TestC07Concurrent", 2500, shards=2, race=True, timeout=3000), st("^TestC07Backpressure", 1500, shards=3, timeout=3000), st("^TestC07Churn", 150, shards=2, timeout=3000), st("^TestC07Churn", 40, shards=1, race=True, timeout=3000), st("^TestC07BacklogSiblingClose", 1500, shards=6, timeout=3000), st("^TestC07Scale", 300, shards=6, timeout=3000)]},
+        "quick": {"stages": [st("^TestC07Sequential", 600), st("^TestC07Concurrent", 600), st("^TestC07Backpressure", 150), st("^TestC07Churn", 12), st("^TestC07BacklogSiblingClose", 60, shards=3), st("^TestC07Scale", 12, shards=4), st("^TestC07SimultaneousPublishers", 24, shards=3), st("^TestC07(Concurrent|SimultaneousPublishers)", 40, race=True)]},
+        "thorough": {"stages": [st("^TestC07Sequential", 10000, shards=6, timeout=3000), st("^TestC07Concurrent", 12000, shards=5, timeout=3000), st("^TestC07Concurrent", 2500, shards=2, race=True, timeout=3000), st("^TestC07Backpressure", 1500, shards=3, timeout=3000), st("^TestC07Churn", 150, shards=2, timeout=3000), st("^TestC07Churn", 40, shards=1, race=True, timeout=3000), st("^TestC07BacklogSiblingClose", 1500, shards=6, timeout=3000), st("^TestC07Scale", 300, shards=6, timeout=3000), st("^TestC07SimultaneousPublishers", 600, shards=6, timeout=3000)]},
     },
     "C15": {
         "pkg": "core", "level": "exploration",
